@@ -37,3 +37,66 @@ MANIFEST = dict(
     note="Trusted: the kernel model, the tracking allocator, clang 14 sanitizers, rapidcheck/libFuzzer. Memory safety is judged by the sanitizers: what "
          "they do not instrument (libc internals) is checked at the interceptors only.",
 )
+
+
+def extra_phase(B, R, tier, vs, logdir, known_sigs):
+    """Thorough tier: coverage-guided libFuzzer campaign on the same in-process oracle (sub c08), from the seed corpus and from an empty corpus."""
+    import glob
+    import hashlib
+    import re
+    import shutil
+    import subprocess
+    if tier != "thorough":
+        return {}
+    src = os.path.join(HERE, "core.cpp")
+    lib = B.build_lib("fuzz", exclude={"monoclock.c"})
+    need = {"events.c", "events_immediate.c", "events_network.c", "events_network_selectstats.c", "events_timer.c",
+            "timerqueue.c", "ptrheap.c", "elasticarray.c", "warnp.c", "network_read.c", "network_write.c", "network_connect.c",
+            "netbuf_read.c", "netbuf_write.c", "http.c", "sock.c", "sock_util.c", "asprintf.c", "noeintr.c"}
+    objs = [lib[k] for k in sorted(need) if k in lib]
+    shim = B.compile_c(os.path.join(HERE, "shim.c"), variant="fuzz")
+    core = B.compile_cxx(src, extra_flags=["-DC08_FUZZ"], fuzz=True)
+    fz = B.link(os.path.join(B.BUILD, "bin", "C08fuzz"), [core, shim] + objs, libs=["-lrapidcheck"], wraps=WRAPS, fuzz=True)
+    out = dict(violations=[], evaluations=0, digests=[], samples=[], fuzz_campaigns=[])
+    verif = os.path.dirname(os.path.dirname(HERE))
+    env = dict(os.environ)
+    env["ASAN_OPTIONS"] = "abort_on_error=1:detect_leaks=1:allocator_may_return_null=1:malloc_fill_byte=10:max_malloc_fill_size=4194304:handle_abort=1"
+    env["UBSAN_OPTIONS"] = "abort_on_error=1:print_stacktrace=1"
+    for name, seeded in (("seeded", True), ("empty", False)):
+        cdir = os.path.join(logdir, "fuzz-corpus-" + name)
+        adir = os.path.join(logdir, "fuzz-artifacts-" + name) + "/"
+        shutil.rmtree(cdir, ignore_errors=True)
+        shutil.rmtree(adir, ignore_errors=True)
+        os.makedirs(cdir)
+        os.makedirs(adir)
+        if seeded:
+            for f in glob.glob(os.path.join(verif, "corpus", "C08", "*")):
+                shutil.copy(f, cdir)
+        seed = (vs * 7919 + (1 if seeded else 2)) % 2147483647 or 1
+        cmd = [fz, cdir, "-seed=%d" % seed, "-runs=300000", "-max_total_time=150", "-max_len=70000", "-timeout=25", "-rss_limit_mb=4096",
+               "-dict=" + os.path.join(os.path.dirname(HERE), "C08", "http.dict"), "-artifact_prefix=" + adir, "-print_final_stats=1",
+               "-jobs=8", "-workers=8"]
+        subprocess.run(cmd, env=env, cwd=logdir, capture_output=True, text=True, errors="replace")
+        execs = 0
+        for lf in glob.glob(os.path.join(logdir, "fuzz-*.log")):
+            m = re.findall(r"stat::number_of_executed_units:\s*(\d+)", open(lf, errors="replace").read())
+            execs += sum(int(x) for x in m)
+            os.rename(lf, lf + "." + name)
+        units = len(os.listdir(cdir))
+        out["evaluations"] += execs
+        out["fuzz_campaigns"].append(dict(corpus=name, executions=execs, corpus_units_after=units, seed=seed))
+        for f in sorted(os.listdir(cdir))[:400]:
+            out["digests"].append(b"fz" + hashlib.sha256(open(os.path.join(cdir, f), "rb").read()).digest()[:8])
+        for art in sorted(glob.glob(adir + "crash-*") + glob.glob(adir + "leak-*"))[:5]:
+            data = open(art, "rb").read()
+            body = "%% fill=10\n%% sub=c08\n%% sig=libfuzzer\n%% msg=libFuzzer artifact %s\nfz #%s\n" % (os.path.basename(art), data.hex())
+            rp = os.path.join(verif, "evidence", "replay", "C08-fz-%s.case" % hashlib.sha256(data).hexdigest()[:12])
+            open(rp, "w").write(body)
+            res = R.replay(rp, 3)
+            if all(rc != 0 for rc, _ in res):
+                out["violations"].append((rp, "libFuzzer artifact reproduces: " + res[0][1][-400:]))
+            else:
+                out.setdefault("fuzz_unreproduced_artifacts", []).append(os.path.basename(art))
+    if out["fuzz_campaigns"]:
+        out["samples"].append({"sub": "libfuzzer", "case": "corpus units after campaigns: %s" % [c["corpus_units_after"] for c in out["fuzz_campaigns"]]})
+    return out
